@@ -154,6 +154,8 @@ pub fn for_each_expr(opts: &SpaceOpts, f: &(dyn Fn(&Expr) + Sync)) -> u64 {
         if opts.position > 0 {
             let flags = gen::flag_family();
             flags.par_iter().for_each(|s| visit(s, "flags"));
+            let cased = gen::cased_family();
+            cased.par_iter().for_each(|s| visit(s, "cased"));
         }
     }
     if opts.corpus {
